@@ -1,2 +1,833 @@
-From PD Require Import Model.Tracking.
-Lemma stub_C07 : True. Proof. exact I. Qed.
+(* C07 -- tracks follow droplet identity.  Theorems about Model/Tracking.v. *)
+From Coq Require Import List Bool Arith Lia QArith Permutation Sorted.
+Import ListNotations.
+From PD Require Import Model.Tracking Proofs.Tracking Proofs.TrackingOv Proofs.TrackingDist Proofs.C06.
+
+Local Open Scope nat_scope.
+
+(* ------------------------------------------------------------------------------------------ *)
+(* helpers                                                                                     *)
+(* ------------------------------------------------------------------------------------------ *)
+Lemma track_frames_ids tr : track_frames tr = map fst (ids tr).
+Proof. unfold track_frames, ids, fr_of. rewrite map_map. reflexivity. Qed.
+
+Lemma in_ids_all trs tr a : In tr trs -> In a (ids tr) -> In a (all_ids_of trs).
+Proof.
+  intros Htr Ha. unfold ids in Ha. apply in_map_iff in Ha. destruct Ha as (e & <- & He).
+  unfold all_ids_of. apply in_map. apply in_all_entries. eauto.
+Qed.
+
+Lemma in_all_ids_of trs a : In a (all_ids_of trs) -> exists tr, In tr trs /\ In a (ids tr).
+Proof.
+  unfold all_ids_of. intros H. apply in_map_iff in H. destruct H as (e & <- & He).
+  apply in_all_entries in He. destruct He as (tr & Htr & He). exists tr. split; [exact Htr|].
+  unfold ids. apply in_map. exact He.
+Qed.
+
+Lemma linked_in_ids trs a b : linked trs a b -> In a (all_ids_of trs) /\ In b (all_ids_of trs).
+Proof.
+  intros (tr & Htr & Hadj). apply adjacent_in in Hadj. destruct Hadj as [Ha Hb].
+  split; eapply in_ids_all; eauto.
+Qed.
+
+Lemma in_snoc_succ_or_last {A} (l : list A) x a :
+  In a (l ++ [x]) -> (exists b, adjacent (l ++ [x]) a b) \/ a = x.
+Proof.
+  induction l as [|y l IH]; simpl.
+  - intros [<-|[]]. right. reflexivity.
+  - intros [<-|Hin].
+    + left. destruct l as [|z l]; simpl.
+      * exists x. exists [], []. reflexivity.
+      * exists z. exists [], (l ++ [x]). reflexivity.
+    + destruct (IH Hin) as [(b & l1 & l2 & E)|E]; [|auto].
+      left. exists b. exists (y :: l1), l2. simpl. rewrite E. reflexivity.
+Qed.
+
+Lemma in_ids_succ_or_last tr a : In a (ids tr) -> (exists b, adjacent (ids tr) a b) \/ a = t_last tr.
+Proof. destruct (ids_last tr) as [l ->]. apply in_snoc_succ_or_last. Qed.
+
+Lemma nodup_sing {A} (l : list A) k : NoDup l -> In k l -> (forall x, In x l -> x = k) -> l = [k].
+Proof.
+  intros Hn Hk Hall. destruct l as [|x l]; [destruct Hk|].
+  assert (x = k) by (apply Hall; left; reflexivity). subst x.
+  destruct l as [|y l]; [reflexivity|]. exfalso.
+  assert (y = k) by (apply Hall; right; left; reflexivity). subst y.
+  inversion Hn as [|? ? Hnot _]. apply Hnot. left. reflexivity.
+Qed.
+
+(* a droplet of a track that ends the track has no successor (ids are unique) *)
+Lemma ends_no_succ trs a b : NoDup (all_ids_of trs) -> ends trs a -> ~ linked trs a b.
+Proof.
+  intros Hn (tr & Htr & Hl) (tr' & Htr' & l1 & l2 & E).
+  apply In_nth_error in Htr. destruct Htr as [k Hk]. apply In_nth_error in Htr'. destruct Htr' as [k' Hk'].
+  assert (k = k').
+  { apply (tracks_disjoint trs k k' tr tr' a Hn Hk Hk').
+    - rewrite <- Hl. apply t_last_in_ids.
+    - rewrite E. apply in_or_app. right. left. reflexivity. }
+  subst k'. rewrite Hk in Hk'. inversion Hk'; subst tr'. clear Hk'.
+  assert (Hnd : NoDup (ids tr)).
+  { rewrite all_ids_of_concat in Hn. clear - Hn Hk. revert k Hk. induction trs as [|x trs IH]; intros k Hk.
+    - destruct k; discriminate.
+    - simpl in Hn. destruct k as [|k]; simpl in Hk.
+      + inversion Hk; subst. clear - Hn. induction (ids tr) as [|y l IHl]; [constructor|].
+        simpl in Hn. inversion Hn as [|? ? Hy Hn']; subst. constructor; [|auto].
+        intros Hin. apply Hy. apply in_app_iff. auto.
+      + apply (IH) with (k := k); [|exact Hk]. clear - Hn. induction (ids x) as [|y l IHl]; [exact Hn|].
+        simpl in Hn. inversion Hn; auto. }
+  destruct (ids_last tr) as [l El]. rewrite El in E, Hnd. rewrite Hl in *.
+  destruct l2 as [|z l2 _] using rev_ind.
+  - replace (l1 ++ [a; b]) with ((l1 ++ [a]) ++ [b]) in E by (rewrite <- app_assoc; reflexivity).
+    apply app_inj_tail in E. destruct E as [E <-]. rewrite E in Hnd.
+    apply NoDup_remove_2 in Hnd. apply Hnd. rewrite app_nil_r. apply in_or_app. right. left. reflexivity.
+  - replace (l1 ++ a :: b :: l2 ++ [z]) with ((l1 ++ a :: b :: l2) ++ [z]) in E
+      by (rewrite <- app_assoc; reflexivity).
+    apply app_inj_tail in E. destruct E as [E <-]. rewrite E in Hnd.
+    apply NoDup_remove_2 in Hnd. apply Hnd. rewrite app_nil_r. apply in_or_app. right. left. reflexivity.
+Qed.
+
+Lemma last_time_of_nth done t0 n0 :
+  nth_error done (length done - 1) = Some (t0, n0) -> last_time done = Some t0.
+Proof.
+  intros H. destruct (last_time done) as [tl|] eqn:E.
+  - destruct (last_time_nth _ _ E) as [n Hn]. unfold frame in *. rewrite Hn in H. inversion H. reflexivity.
+  - unfold last_time, frame in *. destruct (rev done) as [|[t n] r] eqn:R; [|discriminate].
+    apply (f_equal (@rev _)) in R. rewrite rev_involutive in R. subst done. destruct (0 - 1); discriminate.
+Qed.
+
+(* every droplet of the last processed frame is the end of an alive track *)
+Lemma last_frame_alive done trs t0 n0 a :
+  Inv1 done trs -> nth_error done (length done - 1) = Some (t0, n0) ->
+  In a (frame_ids (length done - 1) n0) ->
+  exists k tr, In k (alive_idx (last_time done) trs) /\ nth_error trs k = Some tr /\ t_last tr = a.
+Proof.
+  intros [[Hp Hs] Hc] Hn Ha.
+  assert (Hlen : length done <> 0) by (intros E; destruct done; [destruct (0 - 1); discriminate|discriminate]).
+  apply in_frame_ids in Ha. destruct Ha as [Hf Hj].
+  assert (Hall : In a (all_ids done)) by (apply in_all_ids; exists t0, n0; rewrite Hf; auto).
+  apply (Permutation_in _ (Permutation_sym Hp)) in Hall. apply in_all_ids_of in Hall.
+  destruct Hall as (tr & Htr & Hin). destruct (Hc tr Htr) as [s Hs'].
+  assert (Hlt : fst (t_last tr) < length done).
+  { destruct (Hs (snd tr)) as (n' & Hn' & _).
+    - apply in_all_entries. exists tr. split; [exact Htr|apply last_entry_in].
+    - unfold fr_of in Hn'. apply nth_error_Some. unfold t_last. congruence. }
+  assert (Hlast : t_last tr = a).
+  { destruct (ids_last tr) as [l El]. rewrite track_frames_ids, El, map_app in Hs'. simpl in Hs'.
+    assert (Hl : length (entries tr) = S (length l)).
+    { apply (f_equal (@length _)) in El. unfold ids in El. rewrite map_length, app_length in El. simpl in El.
+      transitivity (length l + 1); [exact El|lia]. }
+    rewrite Hl in Hs'. symmetry in Hs'. apply seq_last_eq in Hs'. destruct Hs' as [Hx Hl'].
+    rewrite El in Hin. apply in_app_iff in Hin. destruct Hin as [Hin|[E|[]]]; [|exact E]. exfalso.
+    assert (Hfa : In (fst a) (seq s (length l))) by (rewrite <- Hl'; apply in_map; exact Hin).
+    apply in_seq in Hfa. lia. }
+  apply In_nth_error in Htr. destruct Htr as [k Hk]. exists k, tr. split; [|auto].
+  apply alive_idx_spec. exists tr. split; [exact Hk|].
+  rewrite (last_time_of_nth _ _ _ Hn). simpl.
+  destruct (Hs (snd tr)) as (n' & Hn' & _).
+  { apply in_all_entries. exists tr. split; [eapply nth_error_In; eauto|apply last_entry_in]. }
+  assert (E : fr_of (snd tr) = length done - 1) by (unfold fr_of; fold (t_last tr); rewrite Hlast; exact Hf).
+  rewrite E, Hn in Hn'. inversion Hn'. apply Qeq_bool_iff. unfold t_end. reflexivity.
+Qed.
+
+(* ends of alive tracks are droplets of the previous frame *)
+Lemma alive_last_in_frame done trs t0 n0 k tr :
+  Inv0 done trs -> distinct_times done -> nth_error done (length done - 1) = Some (t0, n0) ->
+  In k (alive_idx (last_time done) trs) -> nth_error trs k = Some tr ->
+  In (t_last tr) (frame_ids (length done - 1) n0).
+Proof.
+  intros I Hd Hn Hk Htr. assert (Hf := alive_last_frame done trs k tr I Hd Hk Htr).
+  destruct I as [_ Hs]. destruct (Hs (snd tr)) as (n' & Hn' & Hj).
+  { apply in_all_entries. exists tr. split; [eapply nth_error_In; eauto|apply last_entry_in]. }
+  apply in_frame_ids. unfold fr_of in Hn'. fold (t_last tr) in Hn', Hj.
+  replace (fst (t_last tr)) with (length done - 1) in Hn' by lia. rewrite Hn in Hn'. inversion Hn'; subst.
+  split; [lia|exact Hj].
+Qed.
+
+Lemma uniq_last trs k1 k2 tr1 tr2 :
+  NoDup (all_ids_of trs) -> nth_error trs k1 = Some tr1 -> nth_error trs k2 = Some tr2 ->
+  t_last tr1 = t_last tr2 -> k1 = k2.
+Proof.
+  intros Hn H1 H2 E. apply (tracks_disjoint trs k1 k2 tr1 tr2 (t_last tr1) Hn H1 H2).
+  - apply t_last_in_ids.
+  - rewrite E. apply t_last_in_ids.
+Qed.
+
+Lemma in_all_ids_prefix done rest a : In a (all_ids done) -> In a (all_ids (done ++ rest)).
+Proof.
+  intros H. apply in_all_ids in H. destruct H as (t & n & Hn & Hj). apply in_all_ids. exists t, n.
+  split; [|exact Hj]. rewrite nth_error_app1; [exact Hn|]. apply nth_error_Some. congruence.
+Qed.
+
+Lemma in_all_ids_lt frames a : In a (all_ids frames) -> fst a < length frames.
+Proof.
+  intros H. apply in_all_ids in H. destruct H as (t & n & Hn & _). apply nth_error_Some. congruence.
+Qed.
+
+(* links created by a step point to droplets of the current frame *)
+Lemma step_new_links m done t n trs trs' a b :
+  Inv0 done trs -> step m t (length done) n (alive_idx (last_time done) trs) trs = Ok trs' ->
+  linked trs' a b -> linked trs a b \/ fst b = length done.
+Proof.
+  intros I H L. destruct (Inv0_step m done t n trs trs' I H) as (_ & evs & Hap & Hperm & _).
+  apply (apply_events_linked _ _ _ _ a b Hap) in L.
+  destruct L as [L|(evs1 & k & evs2 & trs1 & tr & -> & _)]; [auto|]. right.
+  assert (Hin : In b (frame_ids (length done) n)).
+  { eapply Permutation_in; [exact Hperm|]. rewrite map_app. apply in_or_app. right. left. reflexivity. }
+  apply in_frame_ids in Hin. tauto.
+Qed.
+
+Lemma step_linked_mono m done t n trs trs' a b :
+  Inv0 done trs -> step m t (length done) n (alive_idx (last_time done) trs) trs = Ok trs' ->
+  linked trs a b -> linked trs' a b.
+Proof.
+  intros I H L. destruct (Inv0_step m done t n trs trs' I H) as (_ & evs & Hap & _).
+  eapply apply_events_linked_mono; eauto.
+Qed.
+
+Lemma step_starts m done t n trs trs' b :
+  Inv0 done trs -> step m t (length done) n (alive_idx (last_time done) trs) trs = Ok trs' ->
+  (starts trs b -> starts trs' b) /\ (starts trs' b -> starts trs b \/ fst b = length done).
+Proof.
+  intros I H. destruct (Inv0_step m done t n trs trs' I H) as (_ & evs & Hap & Hperm & _).
+  split.
+  - intros S. apply (apply_events_starts _ _ _ _ b Hap). auto.
+  - intros S. apply (apply_events_starts _ _ _ _ b Hap) in S. destruct S as [S|Hin]; [auto|]. right.
+    assert (Hb : In b (frame_ids (length done) n)).
+    { eapply Permutation_in; [exact Hperm|]. apply in_map_iff. exists (New b). auto. }
+    apply in_frame_ids in Hb. tauto.
+Qed.
+
+(* ------------------------------------------------------------------------------------------ *)
+(* overlap method                                                                              *)
+(* ------------------------------------------------------------------------------------------ *)
+Section OverlapTheorems.
+  Variable ov : did -> did -> bool.
+
+  (* consecutive droplets of a track overlap (no hypothesis at all) *)
+  Lemma ov_frame_links_overlap t alive trs ds trs' :
+    (forall a b, linked trs a b -> ov a b = true) ->
+    ov_frame ov t alive trs ds = Ok trs' ->
+    forall a b, linked trs' a b -> ov a b = true.
+  Proof.
+    intros H0 H.
+    apply (ov_frame_inv ov t alive (fun cur _ => forall a b, linked cur a b -> ov a b = true) ds trs H0); [|exact H].
+    intros cur pre d post ev cur' _ Q Hev Hap a b L.
+    apply (apply_event_linked _ _ _ _ a b Hap) in L.
+    destruct L as [L|(k & tr & -> & Hn & ->)]; [auto|].
+    destruct (ov_event_append ov _ _ _ _ _ Hev) as (-> & _ & tr' & Hn' & Hov).
+    rewrite Hn in Hn'. inversion Hn'; subst. exact Hov.
+  Qed.
+
+  Theorem ov_consecutive_overlap frames trs :
+    track_all (MOverlap ov) frames = Ok trs -> forall a b, linked trs a b -> ov a b = true.
+  Proof.
+    apply (run_inv (MOverlap ov) (fun _ trs => forall a b, linked trs a b -> ov a b = true)).
+    - intros a b (tr & [] & _).
+    - intros done t n rest trs0 trs' _ I H. simpl in H. eapply ov_frame_links_overlap; eauto.
+  Qed.
+
+  (* a droplet that overlaps no droplet of the previous frame (and no earlier droplet of its own
+     frame) starts a new track *)
+  Definition no_prev (frames : list frame) (b : did) : Prop :=
+    (forall a, In a (all_ids frames) -> fst a + 1 = fst b -> ov a b = false) /\
+    (forall j0, j0 < snd b -> ov (fst b, j0) b = false).
+
+  Theorem ov_new_if_no_overlap frames trs :
+    distinct_times frames -> track_all (MOverlap ov) frames = Ok trs ->
+    forall b, In b (all_ids frames) -> no_prev frames b -> starts trs b.
+  Proof.
+    intros Hd H.
+    set (P := fun (done : list frame) (trs : list track) =>
+                Inv0 done trs /\ forall b, In b (all_ids done) -> no_prev frames b -> starts trs b).
+    assert (G : P frames trs); [|apply G].
+    apply (run_inv (MOverlap ov) P frames); [| |exact H].
+    - split; [split; [reflexivity|intros e []]|]. intros b [].
+    - intros done t n rest trs0 trs' Hfr [I Hst] Hs.
+      destruct (Inv0_step _ done t n trs0 trs' I Hs) as (I' & _). split; [exact I'|].
+      assert (Hdd : distinct_times done) by (subst frames; eapply distinct_times_prefix; eauto).
+      set (alive := alive_idx (last_time done) trs0) in *. simpl in Hs.
+      set (Q := fun (cur : list track) (pre : list did) =>
+                  (forall k, In k alive -> exists tr, nth_error cur k = Some tr /\
+                     ((fst (t_last tr) + 1 = length done /\ In (t_last tr) (all_ids done)) \/ In (t_last tr) pre)) /\
+                  (forall b, In b (all_ids done) \/ In b pre -> no_prev frames b -> starts cur b)).
+      assert (GQ : Q trs' (frame_ids (length done) n)).
+      { apply (ov_frame_inv ov t alive Q (frame_ids (length done) n) trs0); [| |exact Hs].
+        - split.
+          + intros k Hk. assert (Hlt : k < length trs0) by (apply (alive_idx_valid _ _ k Hk)).
+            destruct (nth_error trs0 k) as [tr|] eqn:E; [|apply nth_error_None in E; lia].
+            exists tr. split; [reflexivity|]. left. split; [eapply alive_last_frame; eauto|].
+            destruct I as [Hp _]. apply (Permutation_in _ Hp). eapply in_ids_all; [eapply nth_error_In; eauto|].
+            apply t_last_in_ids.
+          + intros b [Hb|[]] Hnp. auto.
+        - intros cur pre d post ev cur' Hds [Qa Qs] Hev Hap.
+          destruct (frame_ids_split _ _ _ _ _ Hds) as (Hfd & Hjd & Hjn & Hpre & _).
+          assert (Hmono : forall b, starts cur b -> starts cur' b).
+          { intros b S. apply (apply_event_starts _ _ _ _ b Hap). auto. }
+          split.
+          + intros k Hk. destruct (Qa k Hk) as (tr & Hn & Hor).
+            destruct ev as [k' d'|d'].
+            * destruct (apply_append_split _ _ _ _ _ Hap) as (l1 & tr0 & l2 & -> & Hlen & ->).
+              destruct (ov_event_append ov _ _ _ _ _ Hev) as (-> & _).
+              destruct (Nat.eq_dec k (length l1)) as [->|Hne].
+              -- exists (t_append tr0 (t, d)). rewrite nth_error_mid. split; [reflexivity|].
+                 right. apply in_or_app. right. left. reflexivity.
+              -- exists tr. split; [rewrite <- Hn; apply nth_error_mid_other; exact Hne|].
+                 destruct Hor; [auto|right; apply in_or_app; auto].
+            * simpl in Hap. inversion Hap; subst cur'. exists tr. split.
+              -- rewrite nth_error_app1; [exact Hn|]. apply nth_error_Some. congruence.
+              -- destruct Hor; [auto|right; apply in_or_app; auto].
+          + intros b Hb Hnp.
+            assert (Hb' : (In b (all_ids done) \/ In b pre) \/ b = d).
+            { destruct Hb as [Hb|Hb]; [auto|]. apply in_app_iff in Hb. destruct Hb as [Hb|[<-|[]]]; auto. }
+            destruct Hb' as [Hb' | ->]; [apply Hmono; apply Qs; assumption|].
+            (* d has no predecessor: nothing matches, so it starts a track *)
+            destruct (ov_event_cases ov _ _ _ _ Hev) as [(k & -> & Hfil)|[-> _]].
+            * exfalso. assert (Hk : In k (filter (ov_pred ov cur d) alive)) by (rewrite Hfil; left; reflexivity).
+              apply filter_In in Hk. destruct Hk as [Hk Hp]. destruct (Qa k Hk) as (tr & Hn & Hor).
+              unfold ov_pred in Hp. rewrite Hn in Hp. destruct Hnp as [Hnp1 Hnp2].
+              destruct Hor as [[Hf Hin]|Hin].
+              -- rewrite (Hnp1 (t_last tr)) in Hp; [discriminate| |lia].
+                 subst frames. apply in_all_ids_prefix. exact Hin.
+              -- destruct (Hpre _ Hin) as [Hf0 Hj0]. specialize (Hnp2 (snd (t_last tr)) Hj0).
+                 rewrite Hfd, <- Hf0, <- surjective_pairing in Hnp2. congruence.
+            * apply (apply_event_starts _ _ _ _ d Hap). right. reflexivity. }
+      destruct GQ as [_ GQ]. intros b Hb Hnp. apply GQ; [|exact Hnp].
+      rewrite all_ids_snoc in Hb. apply in_app_iff in Hb. tauto.
+  Qed.
+End OverlapTheorems.
+
+(* ---- one-to-one overlap relation between two consecutive frames ---- *)
+Section OverlapBijection.
+  Variable ov : did -> did -> bool.
+
+  Lemma ov_frame_bijection t alive trs (R C : list did) f n1 trs' :
+    C = frame_ids f n1 ->
+    NoDup alive ->
+    (forall k, In k alive -> exists tr, nth_error trs k = Some tr /\ In (t_last tr) R) ->
+    (forall a, In a R -> exists k tr, In k alive /\ nth_error trs k = Some tr /\ t_last tr = a) ->
+    (forall k1 k2 tr1 tr2, nth_error trs k1 = Some tr1 -> nth_error trs k2 = Some tr2 ->
+                           t_last tr1 = t_last tr2 -> k1 = k2) ->
+    (forall j0 j, j0 < j -> j < n1 -> ov (f, j0) (f, j) = false) ->
+    (forall a b b', In a R -> In b C -> In b' C -> ov a b = true -> ov a b' = true -> b = b') ->
+    (forall a a' b, In a R -> In a' R -> In b C -> ov a b = true -> ov a' b = true -> a = a') ->
+    ov_frame ov t alive trs C = Ok trs' ->
+    forall a b, linked trs' a b <-> linked trs a b \/ (In a R /\ In b C /\ ov a b = true).
+  Proof.
+    intros HC Hnd Hlast Hall Huniq Hin Hb1 Hb2 H.
+    set (Q := fun (cur : list track) (pre : list did) =>
+                (forall k, In k alive ->
+                   nth_error cur k = nth_error trs k \/
+                   exists tr0 tr d0, nth_error trs k = Some tr0 /\ nth_error cur k = Some tr /\
+                                     In (t_last tr) pre /\ In d0 pre /\ ov (t_last tr0) d0 = true) /\
+                (forall a b, linked cur a b <-> linked trs a b \/ (In a R /\ In b pre /\ ov a b = true))).
+    assert (G : Q trs' C); [|apply G].
+    apply (ov_frame_inv ov t alive Q C trs); [| |exact H].
+    - split; [intros k _; left; reflexivity|]. intros a b. split; [auto|]. intros [L|(_ & [] & _)]. exact L.
+    - intros cur pre d post ev cur' Hds [Q1 Q2] Hev Hap.
+      assert (HdC : In d C) by (rewrite Hds; apply in_or_app; right; left; reflexivity).
+      assert (Hdpre : ~ In d pre).
+      { assert (Hn : NoDup C) by (rewrite HC; apply frame_ids_nodup).
+        rewrite Hds in Hn. apply NoDup_remove_2 in Hn. intros Hx. apply Hn. apply in_or_app. auto. }
+      rewrite HC in Hds. destruct (frame_ids_split _ _ _ _ _ Hds) as (Hfd & Hjd & Hjn & Hpre & _).
+      (* which alive tracks match d *)
+      assert (Hmatch : forall k, In k (filter (ov_pred ov cur d) alive) ->
+                                 In k alive /\ nth_error cur k = nth_error trs k /\
+                                 exists tr, nth_error trs k = Some tr /\ ov (t_last tr) d = true).
+      { intros k Hk. apply filter_In in Hk. destruct Hk as [Hk Hp]. split; [exact Hk|].
+        unfold ov_pred in Hp. destruct (Q1 k Hk) as [E|(tr0 & tr & d0 & Hn0 & Hn & Hl & _)].
+        - split; [exact E|]. rewrite E in Hp. destruct (nth_error trs k) as [tr|]; [|discriminate]. eauto.
+        - exfalso. rewrite Hn in Hp. destruct (Hpre _ Hl) as [Hf0 Hj0].
+          specialize (Hin (snd (t_last tr)) (snd d) Hj0 Hjn).
+          rewrite <- Hf0 in Hin at 1. rewrite <- Hfd, <- !surjective_pairing in Hin. congruence. }
+      destruct (ov_event_cases ov _ _ _ _ Hev) as [(k & -> & Hfil)|[-> Hfil]].
+      + (* exactly one match: appended *)
+        destruct (Hmatch k) as (Hk & Ecur & tr0 & Hn0 & Hov); [rewrite Hfil; left; reflexivity|].
+        destruct (Hlast k Hk) as (tr0' & Hn0' & HR). rewrite Hn0 in Hn0'. inversion Hn0'; subst tr0'.
+        destruct (apply_append_split _ _ _ _ _ Hap) as (l1 & trc & l2 & -> & Hlen & ->).
+        subst k. rewrite nth_error_mid in Ecur. rewrite Hn0 in Ecur. inversion Ecur; subst trc. split.
+        * intros k' Hk'. destruct (Nat.eq_dec k' (length l1)) as [->|Hne].
+          -- right. exists tr0, (t_append tr0 (t, d)), d. rewrite nth_error_mid. simpl.
+             repeat split; auto; apply in_or_app; right; left; reflexivity.
+          -- destruct (Q1 k' Hk') as [E|(tr1 & tr & d0 & Hn1 & Hn & Hl & Hd0 & Hov0)].
+             ++ left. rewrite <- E. apply nth_error_mid_other. exact Hne.
+             ++ right. exists tr1, tr, d0. split; [exact Hn1|]. split.
+                ** rewrite <- Hn. apply nth_error_mid_other. exact Hne.
+                ** repeat split; auto; apply in_or_app; auto.
+        * intros a b. rewrite (apply_event_linked _ _ _ _ a b Hap), Q2. split.
+          -- intros [[L|(Ha & Hb & Hab)]|(k' & tr' & Ek & Hn' & ->)].
+             ++ auto.
+             ++ right. split; [exact Ha|]. split; [apply in_or_app; auto|exact Hab].
+             ++ inversion Ek; subst k' b. rewrite nth_error_mid in Hn'. inversion Hn'; subst tr'.
+                right. split; [exact HR|]. split; [apply in_or_app; right; left; reflexivity|exact Hov].
+          -- intros [L|(Ha & Hb & Hab)]; [auto|].
+             apply in_app_iff in Hb. destruct Hb as [Hb|[<-|[]]]; [left; right; auto|].
+             right. exists (length l1), tr0. rewrite nth_error_mid. split; [reflexivity|]. split; [reflexivity|].
+             apply (Hb2 a (t_last tr0) d); auto.
+      + (* no unique match: new track; then no droplet of R overlaps d *)
+        assert (Hap' := Hap). simpl in Hap'. inversion Hap'; subst cur'. clear Hap'. split.
+        * intros k' Hk'. assert (Hlt : k' < length cur).
+          { destruct (Q1 k' Hk') as [E|(tr1 & tr & _ & _ & Hn & _)].
+            - destruct (Hlast k' Hk') as (tr & Hn & _). apply nth_error_Some. congruence.
+            - apply nth_error_Some. congruence. }
+          rewrite nth_error_app1 by exact Hlt.
+          destruct (Q1 k' Hk') as [E|(tr1 & tr & d0 & Hn1 & Hn & Hl & Hd0 & Hov0)]; [auto|].
+          right. exists tr1, tr, d0. repeat split; auto; apply in_or_app; auto.
+        * intros a b. rewrite (apply_event_linked _ _ _ _ a b Hap), Q2. split.
+          -- intros [[L|(Ha & Hb & Hab)]|(k' & tr' & Ek & _)]; [auto| |discriminate].
+             right. split; [exact Ha|]. split; [apply in_or_app; auto|exact Hab].
+          -- intros [L|(Ha & Hb & Hab)]; [auto|].
+             apply in_app_iff in Hb. destruct Hb as [Hb|[<-|[]]]; [left; right; auto|]. exfalso.
+             destruct (Hall a Ha) as (ka & tra & Hka & Hna & Hla).
+             assert (Hunt : nth_error cur ka = nth_error trs ka).
+             { destruct (Q1 ka Hka) as [E|(tr1 & tr & d0 & Hn1 & Hn & Hl & Hd0 & Hov0)]; [exact E|]. exfalso.
+               rewrite Hna in Hn1. inversion Hn1; subst tr1. rewrite Hla in Hov0.
+               assert (d0 = d); [|subst d0; tauto].
+               apply (Hb1 a d0 d); auto. rewrite HC, Hds. apply in_or_app. auto. }
+             assert (Hinf : In ka (filter (ov_pred ov cur d) alive)).
+             { apply filter_In. split; [exact Hka|]. unfold ov_pred. rewrite Hunt, Hna, Hla. exact Hab. }
+             apply (Hfil ka). apply nodup_sing; [apply NoDup_filter; exact Hnd|exact Hinf|].
+             intros k' Hk'. destruct (Hmatch k' Hk') as (Hk'a & _ & tr' & Hn' & Hov').
+             destruct (Hlast k' Hk'a) as (tr'' & Hn'' & HR'). rewrite Hn' in Hn''. inversion Hn''; subst tr''.
+             assert (t_last tr' = a) by (apply (Hb2 (t_last tr') a d); auto).
+             apply (Huniq k' ka tr' tra Hn' Hna). congruence.
+  Qed.
+End OverlapBijection.
+
+Definition one_to_one (ov : did -> did -> bool) (R C : list did) : Prop :=
+  (forall a b b', In a R -> In b C -> In b' C -> ov a b = true -> ov a b' = true -> b = b') /\
+  (forall a a' b, In a R -> In a' R -> In b C -> ov a b = true -> ov a' b = true -> a = a').
+
+Lemma linked_lt done trs a b : Inv0 done trs -> linked trs a b -> fst b < length done.
+Proof.
+  intros [Hp _] L. apply linked_in_ids in L. destruct L as [_ Hb].
+  apply (Permutation_in _ Hp) in Hb. apply in_all_ids_lt in Hb. exact Hb.
+Qed.
+
+Theorem ov_follows_bijection ov frames trs f t0 n0 t1 n1 :
+  distinct_times frames -> inframe_ok ov frames ->
+  track_all (MOverlap ov) frames = Ok trs ->
+  nth_error frames f = Some (t0, n0) -> nth_error frames (S f) = Some (t1, n1) ->
+  one_to_one ov (frame_ids f n0) (frame_ids (S f) n1) ->
+  forall a b, fst b = S f ->
+              (linked trs a b <-> In a (frame_ids f n0) /\ In b (frame_ids (S f) n1) /\ ov a b = true).
+Proof.
+  intros Hd Hin H Hf0 Hf1 [Hb1 Hb2].
+  set (P := fun (done : list frame) (trs : list track) =>
+              Inv1 done trs /\
+              (S f < length done -> forall a b, fst b = S f ->
+                 (linked trs a b <-> In a (frame_ids f n0) /\ In b (frame_ids (S f) n1) /\ ov a b = true))).
+  assert (G : P frames trs).
+  { apply (run_inv (MOverlap ov) P frames); [| |exact H].
+    - split; [split; [split; [reflexivity|intros e []]|intros tr []]|]. simpl. lia.
+    - intros done t n rest trs0 trs' Hfr [I1 IH] Hs.
+      assert (I1' : Inv1 (done ++ [(t, n)]) trs') by (eapply (Inv1_step (MOverlap ov)); eauto).
+      split; [exact I1'|]. rewrite app_length. simpl. intros Hlen a b Hfb.
+      destruct I1 as [I0 Hc].
+      destruct (Nat.eq_dec (length done) (S f)) as [E|Hne].
+      + (* this is the step that processes frame S f *)
+        assert (Etn : (t, n) = (t1, n1)).
+        { rewrite Hfr, <- E, nth_error_mid in Hf1. inversion Hf1. reflexivity. }
+        inversion Etn; subst t n. clear Etn.
+        assert (Hdf : nth_error done (length done - 1) = Some (t0, n0)).
+        { rewrite Hfr in Hf0. unfold frame in *. rewrite nth_error_app1 in Hf0 by lia.
+          replace (length done - 1) with f by lia. exact Hf0. }
+        assert (Hdd : distinct_times done) by (subst frames; eapply distinct_times_prefix; eauto).
+        assert (Hnd := Inv0_nodup _ _ I0).
+        simpl in Hs. rewrite E in Hs.
+        assert (Hfe : f = length done - 1) by lia.
+        pose proof (ov_frame_bijection ov t1 (alive_idx (last_time done) trs0) trs0
+                      (frame_ids f n0) (frame_ids (S f) n1) (S f) n1 trs' eq_refl
+                      (alive_idx_nodup _ _)) as BJ.
+        rewrite (BJ); clear BJ.
+        * split; [|tauto]. intros [L|L]; [|exact L]. exfalso.
+          apply (linked_lt done trs0 a b I0) in L. unfold frame in *. lia.
+        * intros k Hk. assert (Hlt : k < length trs0) by (apply (alive_idx_valid _ _ k Hk)).
+          destruct (nth_error trs0 k) as [tr|] eqn:Ek; [|apply nth_error_None in Ek; lia].
+          exists tr. split; [reflexivity|]. rewrite Hfe. eapply alive_last_in_frame; eauto.
+        * intros a' Ha'. rewrite Hfe in Ha'.
+          destruct (last_frame_alive done trs0 t0 n0 a' (conj I0 Hc) Hdf Ha') as (k & tr & Hk & Hn & Hl).
+          exists k, tr. auto.
+        * intros k1 k2 tr1 tr2. apply uniq_last. exact Hnd.
+        * intros j0 j Hj0 Hj. apply (Hin (S f) t1 n1 j0 j Hf1 Hj0 Hj).
+        * exact Hb1.
+        * exact Hb2.
+        * exact Hs.
+      + assert (Hgt : S f < length done) by (unfold frame in *; lia). rewrite <- (IH Hgt a b Hfb). split.
+        * intros L. destruct (step_new_links _ _ _ _ _ _ a b I0 Hs L) as [L'|Hx]; [exact L'|unfold frame in *; lia].
+        * intros L. eapply step_linked_mono; eauto. }
+  destruct G as [_ G]. apply G. apply nth_error_Some. congruence.
+Qed.
+
+(* ------------------------------------------------------------------------------------------ *)
+(* distance method                                                                             *)
+(* ------------------------------------------------------------------------------------------ *)
+Lemma Forall2_in_l {A B} (P : A -> B -> Prop) l1 l2 x :
+  Forall2 P l1 l2 -> In x l1 -> exists y, In y l2 /\ P x y.
+Proof.
+  induction 1 as [|a b l1 l2 Hab F IH]; intros Hin; [destruct Hin|].
+  destruct Hin as [<-|Hin]; [exists b; simpl; auto|].
+  destruct (IH Hin) as (y & Hy & Hp). exists y. simpl. auto.
+Qed.
+
+Lemma Forall2_in_r {A B} (P : A -> B -> Prop) l1 l2 y :
+  Forall2 P l1 l2 -> In y l2 -> exists x, In x l1 /\ P x y.
+Proof.
+  induction 1 as [|a b l1 l2 Hab F IH]; intros Hin; [destruct Hin|].
+  destruct Hin as [<-|Hin]; [exists a; simpl; auto|].
+  destruct (IH Hin) as (x & Hx & Hp). exists x. simpl. auto.
+Qed.
+
+Section DistanceTheorems.
+  Variable D : did -> did -> Q.
+  Variable md : option Q.
+
+  (* one frame: the links are those of closest-pair-first matching between the ends of the alive
+     tracks and the droplets of the frame; unmatched droplets start tracks *)
+  Lemma dist_step_spec t f n alive trs trs' :
+    dist_frame D md t f n alive trs = Ok trs' ->
+    valid_idx alive trs -> NoDup alive -> NoDup (all_ids_of trs) ->
+    exists prev links,
+      lasts trs alive = Ok prev /\ NoDup prev /\
+      closest_first (Wc D md) prev (frame_ids f n) [] [] links /\
+      (forall a b, linked trs' a b <-> linked trs a b \/ In (a, b) links) /\
+      (forall b, starts trs' b <-> starts trs b \/ (In b (frame_ids f n) /\ ~ In b (map snd links))).
+  Proof.
+    intros H V Ha Hn.
+    destruct (lasts_total trs alive V) as [prev Hl].
+    assert (Hnp : NoDup prev) by (eapply lasts_nodup; eauto).
+    destruct (dist_frame_spec D md t f n alive trs trs' H prev Hl Hnp)
+      as (links & evsA & news & Hcf & F2 & Hnews & Hnn & Hap).
+    exists prev, links. split; [exact Hl|]. split; [exact Hnp|]. split; [exact Hcf|].
+    assert (Hnt : NoDup (targets (evsA ++ map New news))).
+    { rewrite targets_app, targets_news, app_nil_r.
+      eapply nodup_targets_dist; [exact Ha|apply (cf_fst _ _ _ _ _ _ Hcf)|exact F2]. }
+    assert (Hls := lasts_spec _ _ _ Hl).
+    (* an Append event and the link it realises *)
+    assert (Hev : forall k b, In (Append k b) (evsA ++ map New news) ->
+                              exists tr, nth_error trs k = Some tr /\ In (t_last tr, b) links).
+    { intros k b Hin. apply in_app_iff in Hin. destruct Hin as [Hin|Hin].
+      - destruct (Forall2_in_r _ _ _ _ F2 Hin) as ([a' b'] & Hab & i & k' & Hk' & Hp & E).
+        simpl in *. inversion E; subst k' b'.
+        destruct (Forall2_nth _ _ _ Hls _ _ Hk') as (a'' & Hp' & tr & Hn' & Hlast).
+        rewrite Hp in Hp'. injection Hp' as Ea. exists tr. split; [exact Hn'|]. rewrite Hlast, <- Ea. exact Hab.
+      - apply in_map_iff in Hin. destruct Hin as (? & ? & _). discriminate. }
+    split.
+    - intros a b. rewrite (apply_events_linked _ _ _ _ a b Hap). split.
+      + intros [L|(evs1 & k & evs2 & trs1 & tr & E & Hap1 & Hn1 & ->)]; [auto|]. right.
+        destruct (Hev k b) as (tr0 & Hn0 & Hlink); [rewrite E; apply in_or_app; right; left; reflexivity|].
+        assert (Hunt : nth_error trs1 k = Some tr0).
+        { eapply apply_events_untouched; [exact Hap1| |exact Hn0].
+          intros d Hd. rewrite E, targets_app in Hnt. simpl in Hnt. apply NoDup_remove_2 in Hnt.
+          apply Hnt. apply in_or_app. left. apply in_targets. eauto. }
+        rewrite Hn1 in Hunt. inversion Hunt; subst tr. exact Hlink.
+      + intros [L|Hab]; [auto|]. right.
+        destruct (Forall2_in_l _ _ _ _ F2 Hab) as (ev & Hin & i & k & Hk & Hp & ->). simpl in *.
+        assert (Hin' : In (Append k b) (evsA ++ map New news)) by (apply in_or_app; auto).
+        destruct (in_split _ _ Hin') as (evs1 & evs2 & E).
+        rewrite E in Hap. destruct (apply_events_app_inv _ _ _ _ _ Hap) as (trs1 & Hap1 & _).
+        destruct (Forall2_nth _ _ _ Hls _ _ Hk) as (a'' & Hp' & tr & Hn' & Hlast).
+        rewrite Hp in Hp'. injection Hp' as Ea.
+        exists evs1, k, evs2, trs1, tr. split; [exact E|]. split; [exact Hap1|]. split; [|congruence].
+        eapply apply_events_untouched; [exact Hap1| |exact Hn'].
+        intros d Hd. rewrite E, targets_app in Hnt. simpl in Hnt. apply NoDup_remove_2 in Hnt.
+        apply Hnt. apply in_or_app. left. apply in_targets. eauto.
+    - intros b. rewrite (apply_events_starts _ _ _ _ b Hap), <- Hnews. split.
+      + intros [S|Hin]; [auto|]. right. apply in_app_iff in Hin. destruct Hin as [Hin|Hin].
+        * destruct (Forall2_in_r _ _ _ _ F2 Hin) as (ab & _ & i & k & _ & _ & E). discriminate.
+        * apply in_map_iff in Hin. destruct Hin as (b' & E & Hb'). inversion E; subst. exact Hb'.
+      + intros [S|Hin]; [auto|]. right. apply in_or_app. right. apply in_map. exact Hin.
+  Qed.
+End DistanceTheorems.
+
+Lemma cf_ext W R R' C :
+  (forall a, In a R <-> In a R') ->
+  forall uR uC L, closest_first W R C uR uC L -> closest_first W R' C uR uC L.
+Proof.
+  intros HR uR uC L H. induction H as [uR uC Hstop|uR uC a b q l Ha Hb Hua Hub Hw Hmin Hc IH].
+  - apply cf_stop. intros a b Ha. apply Hstop. apply HR. exact Ha.
+  - apply cf_step with (q := q); auto.
+    + apply HR. exact Ha.
+    + intros a' b' q' Ha'. apply Hmin. apply HR. exact Ha'.
+Qed.
+
+Lemma cut_some md d q : cut md d = Some q -> q = d /\ forall m, md = Some m -> (d <= m)%Q.
+Proof.
+  unfold cut. destruct md as [m|].
+  - destruct (Qlt_b m d) eqn:E; [discriminate|]. intros H. inversion H. split; [reflexivity|].
+    intros m' Hm. inversion Hm; subst. apply Qlt_b_false. exact E.
+  - intros H. inversion H. split; [reflexivity|]. intros m Hm. discriminate.
+Qed.
+
+Lemma cut_none md d : cut md d = None -> exists m, md = Some m /\ (m < d)%Q.
+Proof.
+  unfold cut. destruct md as [m|]; [|discriminate].
+  destruct (Qlt_b m d) eqn:E; [|discriminate]. intros _. exists m. split; [reflexivity|].
+  apply Qlt_b_true. exact E.
+Qed.
+
+Section DistanceGlobal.
+  Variable D : did -> did -> Q.
+  Variable md : option Q.
+  Notation W := (Wc D md).
+
+  Lemma dist_step_global done t n trs trs' :
+    Inv0 done trs ->
+    step (MDistance D md) t (length done) n (alive_idx (last_time done) trs) trs = Ok trs' ->
+    exists prev links,
+      lasts trs (alive_idx (last_time done) trs) = Ok prev /\ NoDup prev /\
+      closest_first W prev (frame_ids (length done) n) [] [] links /\
+      (forall a b, linked trs' a b <-> linked trs a b \/ In (a, b) links) /\
+      (forall b, starts trs' b <-> starts trs b \/ (In b (frame_ids (length done) n) /\ ~ In b (map snd links))).
+  Proof.
+    intros I H. simpl in H.
+    apply (dist_step_spec D md t (length done) n _ trs trs' H (alive_idx_valid _ _) (alive_idx_nodup _ _)
+                          (Inv0_nodup _ _ I)).
+  Qed.
+
+  (* linked droplets are never farther apart than the cut-off *)
+  Theorem dist_links_within_cutoff frames trs :
+    track_all (MDistance D md) frames = Ok trs ->
+    forall a b, linked trs a b -> W a b = Some (D a b) /\ forall m, md = Some m -> (D a b <= m)%Q.
+  Proof.
+    intros H.
+    set (P := fun (done : list frame) (trs : list track) =>
+                Inv0 done trs /\ forall a b, linked trs a b -> exists q, W a b = Some q).
+    assert (G : P frames trs).
+    { apply (run_inv (MDistance D md) P frames); [| |exact H].
+      - split; [split; [reflexivity|intros e []]|]. intros a b (tr & [] & _).
+      - intros done t n rest trs0 trs' _ [I IH] Hs.
+        destruct (Inv0_step _ done t n trs0 trs' I Hs) as (I' & _). split; [exact I'|].
+        destruct (dist_step_global done t n trs0 trs' I Hs) as (prev & links & _ & _ & Hcf & Hl & _).
+        intros a b L. apply Hl in L. destruct L as [L|L]; [auto|].
+        apply (cf_in _ _ _ _ _ _ Hcf) in L. tauto. }
+    destruct G as [_ G]. intros a b L. destruct (G a b L) as [q Hq]. unfold Wc in *.
+    destruct (cut_some _ _ _ Hq) as [-> Hm]. auto.
+  Qed.
+
+  (* no track ends in a frame in which a new track starts within the cut-off of it *)
+  Theorem dist_maximal frames trs :
+    distinct_times frames -> track_all (MDistance D md) frames = Ok trs ->
+    forall a b, ends trs a -> starts trs b -> fst a + 1 = fst b -> W a b = None.
+  Proof.
+    intros Hd H.
+    set (P := fun (done : list frame) (trs : list track) =>
+                Inv1 done trs /\
+                forall a b, (forall b', ~ linked trs a b') -> In a (all_ids done) -> starts trs b ->
+                            fst b < length done -> fst a + 1 = fst b -> W a b = None).
+    assert (G : P frames trs).
+    { apply (run_inv (MDistance D md) P frames); [| |exact H].
+      - split; [split; [split; [reflexivity|intros e []]|intros tr []]|]. intros a b _ [].
+      - intros done t n rest trs0 trs' Hfr [I1 IH] Hs.
+        assert (I1' : Inv1 (done ++ [(t, n)]) trs') by (eapply (Inv1_step (MDistance D md)); simpl; eauto).
+        split; [exact I1'|]. destruct I1 as [I0 Hc].
+        intros a b Hns Ha Hst Hfb Hab. rewrite app_length in Hfb. simpl in Hfb.
+        assert (Hns0 : forall b', ~ linked trs0 a b').
+        { intros b' L. apply (Hns b'). eapply step_linked_mono; eauto. }
+        destruct (step_starts _ done t n trs0 trs' b I0 Hs) as [_ Hst'].
+        destruct (Nat.eq_dec (fst b) (length done)) as [E|Hne].
+        + (* b is a droplet of the frame processed now *)
+          destruct (dist_step_global done t n trs0 trs' I0 Hs) as (prev & links & Hl & Hnp & Hcf & Hlk & Hstt).
+          assert (Ha0 : In a (all_ids done)).
+          { rewrite all_ids_snoc in Ha. apply in_app_iff in Ha. destruct Ha as [Ha|Ha]; [exact Ha|].
+            apply in_frame_ids in Ha. (unfold frame in *; lia). }
+          apply in_all_ids in Ha0. destruct Ha0 as (t0 & n0 & Hn0 & Hj0).
+          assert (Hfa : fst a = length done - 1) by (unfold frame in *; lia). rewrite Hfa in Hn0.
+          assert (Hdd : distinct_times done) by (subst frames; eapply distinct_times_prefix; eauto).
+          destruct (last_frame_alive done trs0 t0 n0 a (conj I0 Hc) Hn0) as (k & tr & Hk & Hn & Hlast).
+          { apply in_frame_ids. split; [exact Hfa|exact Hj0]. }
+          assert (Hap : In a prev).
+          { destruct (Forall2_in_l _ _ _ _ (lasts_spec _ _ _ Hl) Hk) as (a' & Ha' & tr' & Hn' & Hl').
+            rewrite Hn in Hn'. inversion Hn'; subst tr'. congruence. }
+          apply Hstt in Hst. destruct Hst as [Hst|[Hbf Hbn]].
+          * exfalso. destruct Hst as (tr' & Htr' & l & El).
+            assert (Hb : In b (all_ids_of trs0)) by (eapply in_ids_all; [exact Htr'|rewrite El; left; reflexivity]).
+            destruct I0 as [Hp _]. apply (Permutation_in _ Hp) in Hb. apply in_all_ids_lt in Hb. (unfold frame in *; lia).
+          * apply (cf_maximal _ _ _ _ _ _ Hcf a b Hap Hbf); auto.
+            intros Hin. apply in_map_iff in Hin. destruct Hin as ([a' b'] & Ea & Hin). simpl in Ea. subst a'.
+            apply (Hns b'). apply Hlk. right. exact Hin.
+        + apply IH; auto.
+          * rewrite all_ids_snoc in Ha. apply in_app_iff in Ha. destruct Ha as [Ha|Ha]; [exact Ha|].
+            apply in_frame_ids in Ha. (unfold frame in *; lia).
+          * destruct (Hst' Hst) as [S|S]; [exact S|(unfold frame in *; lia)].
+          * (unfold frame in *; lia). }
+    destruct G as [[I0 _] G]. intros a b He Hs Hab.
+    assert (Hn := Inv0_nodup _ _ I0). destruct I0 as [Hp _].
+    apply G; auto.
+    - intros b'. apply ends_no_succ; assumption.
+    - destruct He as (tr & Htr & <-). apply (Permutation_in _ Hp). eapply in_ids_all; [exact Htr|apply t_last_in_ids].
+    - destruct Hs as (tr & Htr & l & El). apply in_all_ids_lt. apply (Permutation_in _ Hp).
+      eapply in_ids_all; [exact Htr|rewrite El; left; reflexivity].
+  Qed.
+
+  (* the links into frame S f are those of "repeatedly join the closest remaining pair" between the
+     droplets of frame f and those of frame S f *)
+  Theorem dist_greedy_exists frames trs f t0 n0 t1 n1 :
+    distinct_times frames -> track_all (MDistance D md) frames = Ok trs ->
+    nth_error frames f = Some (t0, n0) -> nth_error frames (S f) = Some (t1, n1) ->
+    exists L, closest_first W (frame_ids f n0) (frame_ids (S f) n1) [] [] L /\
+              forall a b, fst b = S f -> (linked trs a b <-> In (a, b) L).
+  Proof.
+    intros Hd H Hf0 Hf1.
+    set (P := fun (done : list frame) (trs : list track) =>
+                Inv1 done trs /\
+                (S f < length done ->
+                 exists L, closest_first W (frame_ids f n0) (frame_ids (S f) n1) [] [] L /\
+                           forall a b, fst b = S f -> (linked trs a b <-> In (a, b) L))).
+    assert (G : P frames trs).
+    { apply (run_inv (MDistance D md) P frames); [| |exact H].
+      - split; [split; [split; [reflexivity|intros e []]|intros tr []]|]. simpl. (unfold frame in *; lia).
+      - intros done t n rest trs0 trs' Hfr [I1 IH] Hs.
+        assert (I1' : Inv1 (done ++ [(t, n)]) trs') by (eapply (Inv1_step (MDistance D md)); simpl; eauto).
+        split; [exact I1'|]. rewrite app_length. simpl. intros Hlen.
+        destruct I1 as [I0 Hc].
+        destruct (Nat.eq_dec (length done) (S f)) as [E|Hne].
+        + assert (Etn : (t, n) = (t1, n1)).
+          { rewrite Hfr, <- E, nth_error_mid in Hf1. inversion Hf1. reflexivity. }
+          inversion Etn; subst t n. clear Etn.
+          assert (Hdf : nth_error done (length done - 1) = Some (t0, n0)).
+          { rewrite Hfr in Hf0. unfold frame in *. rewrite nth_error_app1 in Hf0 by (unfold frame in *; lia).
+            replace (length done - 1) with f by (unfold frame in *; lia). exact Hf0. }
+          assert (Hdd : distinct_times done) by (subst frames; eapply distinct_times_prefix; eauto).
+          destruct (dist_step_global done t1 n1 trs0 trs' I0 Hs) as (prev & links & Hl & Hnp & Hcf & Hlk & _).
+          assert (Hfe : f = length done - 1) by (unfold frame in *; lia).
+          exists links. split.
+          * unfold frame in *. rewrite E in Hcf. apply (cf_ext _ prev); [|exact Hcf]. intros a. split.
+            -- intros Ha. destruct (Forall2_in_r _ _ _ _ (lasts_spec _ _ _ Hl) Ha) as (k & Hk & tr & Hn & <-).
+               rewrite Hfe. eapply alive_last_in_frame; eauto.
+            -- intros Ha. rewrite Hfe in Ha.
+               destruct (last_frame_alive done trs0 t0 n0 a (conj I0 Hc) Hdf Ha) as (k & tr & Hk & Hn & Hlast).
+               destruct (Forall2_in_l _ _ _ _ (lasts_spec _ _ _ Hl) Hk) as (a' & Ha' & tr' & Hn' & Hl').
+               rewrite Hn in Hn'. inversion Hn'; subst tr'. congruence.
+          * intros a b Hfb. rewrite Hlk. split; [|auto]. intros [L|L]; [|exact L]. exfalso.
+            apply (linked_lt done trs0 a b I0) in L. unfold frame in *. lia.
+        + assert (Hgt : S f < length done) by (unfold frame in *; lia).
+          destruct (IH Hgt) as (L & HL1 & HL2). exists L. split; [exact HL1|].
+          intros a b Hfb. rewrite <- (HL2 a b Hfb). split.
+          * intros Lk. destruct (step_new_links _ _ _ _ _ _ a b I0 Hs Lk) as [L'|Hx]; [exact L'|unfold frame in *; lia].
+          * intros Lk. eapply step_linked_mono; eauto. }
+    destruct G as [_ G]. apply G. apply nth_error_Some. congruence.
+  Qed.
+
+  (* ... and with pairwise different finite distances that matching is unique *)
+  Theorem dist_greedy_spec frames trs f t0 n0 t1 n1 :
+    distinct_times frames -> track_all (MDistance D md) frames = Ok trs ->
+    nth_error frames f = Some (t0, n0) -> nth_error frames (S f) = Some (t1, n1) ->
+    distinct_weights W (frame_ids f n0) (frame_ids (S f) n1) ->
+    forall L, closest_first W (frame_ids f n0) (frame_ids (S f) n1) [] [] L ->
+              forall a b, fst b = S f -> (linked trs a b <-> In (a, b) L).
+  Proof.
+    intros Hd H Hf0 Hf1 Hdw L HL.
+    destruct (dist_greedy_exists frames trs f t0 n0 t1 n1 Hd H Hf0 Hf1) as (L' & HL' & Hlk).
+    rewrite (cf_functional _ _ _ Hdw _ _ _ HL _ HL'). exact Hlk.
+  Qed.
+End DistanceGlobal.
+
+(* ------------------------------------------------------------------------------------------ *)
+(* statements as used in Properties/C07.v                                                      *)
+(* ------------------------------------------------------------------------------------------ *)
+Lemma sorted_distinct frames : StronglySorted Qlt (map fst frames) -> distinct_times frames.
+Proof. intros H. apply increasing_distinct, sorted_increasing. exact H. Qed.
+
+Lemma c07_ov_consecutive_overlap : forall ov frames trs,
+  track_all (MOverlap ov) frames = Ok trs -> forall a b, linked trs a b -> ov a b = true.
+Proof. exact ov_consecutive_overlap. Qed.
+
+Lemma c07_ov_new_if_no_overlap : forall ov frames trs,
+  StronglySorted Qlt (map fst frames) -> track_all (MOverlap ov) frames = Ok trs ->
+  forall b, In b (all_ids frames) ->
+    (forall a, In a (all_ids frames) -> fst a + 1 = fst b -> ov a b = false) ->
+    (forall j0, j0 < snd b -> ov (fst b, j0) b = false) ->
+    starts trs b.
+Proof.
+  intros ov frames trs Hs H b Hb H1 H2.
+  apply (ov_new_if_no_overlap ov frames trs (sorted_distinct _ Hs) H b Hb). split; assumption.
+Qed.
+
+Lemma c07_ov_follows_bijection : forall ov frames trs f t0 n0 t1 n1,
+  StronglySorted Qlt (map fst frames) -> inframe_ok ov frames ->
+  track_all (MOverlap ov) frames = Ok trs ->
+  nth_error frames f = Some (t0, n0) -> nth_error frames (S f) = Some (t1, n1) ->
+  one_to_one ov (frame_ids f n0) (frame_ids (S f) n1) ->
+  forall a b, fst b = S f ->
+              (linked trs a b <-> In a (frame_ids f n0) /\ In b (frame_ids (S f) n1) /\ ov a b = true).
+Proof.
+  intros ov frames trs f t0 n0 t1 n1 Hs. apply ov_follows_bijection. apply sorted_distinct. exact Hs.
+Qed.
+
+Lemma c07_dist_links_within_cutoff : forall D md frames trs,
+  track_all (MDistance D md) frames = Ok trs ->
+  forall a b, linked trs a b -> Wc D md a b = Some (D a b) /\ forall m, md = Some m -> (D a b <= m)%Q.
+Proof. exact dist_links_within_cutoff. Qed.
+
+Lemma c07_dist_maximal : forall D md frames trs,
+  StronglySorted Qlt (map fst frames) -> track_all (MDistance D md) frames = Ok trs ->
+  forall a b, ends trs a -> starts trs b -> fst a + 1 = fst b ->
+              exists m, md = Some m /\ (m < D a b)%Q.
+Proof.
+  intros D md frames trs Hs H a b He Hst Hab. apply cut_none.
+  apply (dist_maximal D md frames trs (sorted_distinct _ Hs) H a b He Hst Hab).
+Qed.
+
+Lemma c07_dist_greedy_exists : forall D md frames trs f t0 n0 t1 n1,
+  StronglySorted Qlt (map fst frames) -> track_all (MDistance D md) frames = Ok trs ->
+  nth_error frames f = Some (t0, n0) -> nth_error frames (S f) = Some (t1, n1) ->
+  exists L, closest_first (Wc D md) (frame_ids f n0) (frame_ids (S f) n1) [] [] L /\
+            forall a b, fst b = S f -> (linked trs a b <-> In (a, b) L).
+Proof.
+  intros D md frames trs f t0 n0 t1 n1 Hs. apply dist_greedy_exists. apply sorted_distinct. exact Hs.
+Qed.
+
+Lemma c07_dist_greedy_spec : forall D md frames trs f t0 n0 t1 n1,
+  StronglySorted Qlt (map fst frames) -> track_all (MDistance D md) frames = Ok trs ->
+  nth_error frames f = Some (t0, n0) -> nth_error frames (S f) = Some (t1, n1) ->
+  distinct_weights (Wc D md) (frame_ids f n0) (frame_ids (S f) n1) ->
+  forall L, closest_first (Wc D md) (frame_ids f n0) (frame_ids (S f) n1) [] [] L ->
+            forall a b, fst b = S f -> (linked trs a b <-> In (a, b) L).
+Proof.
+  intros D md frames trs f t0 n0 t1 n1 Hs. apply dist_greedy_spec. apply sorted_distinct. exact Hs.
+Qed.
+
+(* ---- a concrete instance: two frames with two droplets each that swap places ---- *)
+Definition ex7_frames : list frame := [(0%Q, 2); (1%Q, 2)].
+Definition ex7_ov (a b : did) : bool :=
+  (did_eqb a (0, 0) && did_eqb b (1, 1)) || (did_eqb a (0, 1) && did_eqb b (1, 0)).
+(* distances 1, 2, 3, 4: all different; cut-off 4 *)
+Definition ex7_D (a b : did) : Q := inject_Z (Z.of_nat (1 + 2 * snd a + snd b)).
+
+Lemma ex7_sorted : StronglySorted Qlt (map fst ex7_frames).
+Proof. simpl. repeat (constructor; [|repeat (constructor; try reflexivity)]). constructor. Qed.
+
+Lemma ex7_inframe : inframe_ok ex7_ov ex7_frames.
+Proof.
+  intros f t n j0 j Hn Hlt Hj. destruct f as [|[|f]]; simpl in Hn; [| |destruct f; discriminate];
+    inversion Hn; subst; assert (j = 1) by lia; assert (j0 = 0) by lia; subst; reflexivity.
+Qed.
+
+Lemma in_frame_ids_2 f d : In d (frame_ids f 2) -> d = (f, 0) \/ d = (f, 1).
+Proof. simpl. intros [<-|[<-|[]]]; auto. Qed.
+
+Lemma ex7_one_to_one : one_to_one ex7_ov (frame_ids 0 2) (frame_ids 1 2).
+Proof.
+  split.
+  - intros a b b' Ha Hb Hb'. apply in_frame_ids_2 in Ha, Hb, Hb'.
+    destruct Ha as [-> | ->], Hb as [-> | ->], Hb' as [-> | ->]; vm_compute; intros; congruence.
+  - intros a a' b Ha Ha' Hb. apply in_frame_ids_2 in Ha, Ha', Hb.
+    destruct Ha as [-> | ->], Ha' as [-> | ->], Hb as [-> | ->]; vm_compute; intros; congruence.
+Qed.
+
+Lemma ex7_ov_result :
+  track_all (MOverlap ex7_ov) ex7_frames
+  = Ok [([(0%Q, (0, 0))], (1%Q, (1, 1))); ([(0%Q, (0, 1))], (1%Q, (1, 0)))].
+Proof. vm_compute. reflexivity. Qed.
+
+Lemma ex7_distinct : distinct_weights (Wc ex7_D (Some 4%Q)) (frame_ids 0 2) (frame_ids 1 2).
+Proof.
+  intros a b a' b' q q' Ha Hb Ha' Hb'. apply in_frame_ids_2 in Ha, Hb, Ha', Hb'.
+  destruct Ha as [-> | ->], Hb as [-> | ->], Ha' as [-> | ->], Hb' as [-> | ->];
+    vm_compute; intros H1 H2 H3; try discriminate; inversion H1; inversion H2; subst;
+    try (split; reflexivity); try discriminate H3.
+Qed.
+
+Lemma ex7_dist_result :
+  track_all (MDistance ex7_D (Some 4%Q)) ex7_frames
+  = Ok [([(0%Q, (0, 0))], (1%Q, (1, 0))); ([(0%Q, (0, 1))], (1%Q, (1, 1)))].
+Proof. vm_compute. reflexivity. Qed.
